@@ -7,9 +7,11 @@ outer loop `calculate_viability_and_necessity`, written once, generically
 
 * a node is of kind `anyK` (label = ∃ effective parent), `allK` (label =
   ∀ effective parents) or `constK` (label fixed by its own status);
-* `gate p` = "p's TTC is a named distribution other than Enabled/Disabled":
-  such a parent always counts as necessary for its children, and the
-  necessity propagation returns at once when started from it.
+* `gate p` = `_has_ttc_distribution(p)` = "p's TTC is a non-empty dict other
+  than the Enabled / Disabled pseudo-distributions" (since 68ab4f5 this
+  includes composite TTCs and numbers, which have no `name` key): such a
+  parent always counts as necessary for its children, and the necessity
+  propagation returns at once when started from it.
 
 |            | `or`   | `and`  | defense / exist / notExist | gate      |
 |------------|--------|--------|----------------------------|-----------|
@@ -78,15 +80,35 @@ end
 /-- the labelling of a freshly generated graph -/
 def top : Lab := ⟨fun _ => true⟩
 
-/-- the outer loop of `calculate_viability_and_necessity` for one of the two
+/-- the second loop of `calculate_viability_and_necessity` for one of the two
 labels: visit the stored nodes in order; a status node gets its constant and,
-if that is `false`, propagates. -/
+if that is `false`, propagates.  (Until a3159ad this was the whole function.) -/
 def calcLab (g : G) (const : Nat → Bool) (fuel : Nat) (order : List Nat) (v0 : Lab) : Lab :=
   order.foldl (fun v n =>
     if g.kind n = .constK then
       let v1 := upd v n (const n)
       if v1 n then v1 else prop g fuel v1 n
     else v) v0
+
+/-- the first loop of `calculate_viability_and_necessity` (since a3159ad / 8a1d835):
+`for node in graph.nodes: node.is_viable = True; node.is_necessary = True`. -/
+def resetLab (order : List Nat) (v0 : Lab) : Lab :=
+  order.foldl (fun v n => upd v n true) v0
+
+/-- `calculate_viability_and_necessity` for one of the two labels, started on a graph that carries the labels
+`v0`: reset loop, then evaluation / propagation loop. -/
+def calcAll (g : G) (const : Nat → Bool) (fuel : Nat) (order : List Nat) (v0 : Lab) : Lab :=
+  calcLab g const fuel order (resetLab order v0)
+
+/-- the reset loop of the intermediate version a3159ad, which only reset the attack steps
+(`if node.type in ['or', 'and']`): status nodes kept their old label until the second loop evaluated them.
+Only used to document the defect repaired by 8a1d835 (`Props/C08.lean`:
+`guarded_reset_variant_keeps_stale_status_label`). -/
+def resetLabGuarded (g : G) (order : List Nat) (v0 : Lab) : Lab :=
+  order.foldl (fun v n => if g.kind n = .constK then v else upd v n true) v0
+
+def calcAllGuarded (g : G) (const : Nat → Bool) (fuel : Nat) (order : List Nat) (v0 : Lab) : Lab :=
+  calcLab g const fuel order (resetLabGuarded g order v0)
 
 /-- the equation system of the property -/
 def F (g : G) (v : Lab) (x : Nat) : Bool :=
